@@ -411,6 +411,104 @@ def run_config(chk, ctx, name):
                "%s signs without first testing whether this expanded key already produced its signature" % sfn.path, where=sfn.loc())
 
 
+def _leaf_dispenser(F, A):
+    wr, leaves, S = zz.secret_sets(F, A)
+    ots_types = [p for p in leaves if p != seed_type(F, A, leaves)]
+    for f2 in F.fns.values():
+        out = f2.j.get("output", {})
+        if out.get("path") == flow.RESULT and out["args"][0].get("path") in ots_types and len(f2.j.get("inputs", [])) == 1 and f2.j["inputs"][0]["s"].startswith("&mut "):
+            return f2, ots_types
+    return None, ots_types
+
+
+def ots_range_guard(F, A):
+    g1, ots_types = _leaf_dispenser(F, A)
+    if g1 is None:
+        return (False, "leaf dispenser not found")
+    gen_blocks = [b for b, t in g1.calls() if not g1.blocks[b]["cleanup"] and g1.locals[t["dest"]["local"]]["ty"].get("path") in ots_types]
+
+    def dep(d):
+        return any(n == "used_leafs_index" for a, n in d["fields"]) and any(r["op"] in ("Lt", "Le", "Gt", "Ge") for r in d["binops"]) and \
+            (any("LmsParameter" in c for c in gf.dep_callees(d)) or any(n == "tree_height" for a, n in d["fields"]))
+    g = gf.find_guards(g1, dep, gen_blocks)
+    return (len(g) >= 1 and bool(gen_blocks), "leaf counter compared with 2^h before a one-time key is derived in %s" % g1.path)
+
+
+def signed_once_guard(F, A):
+    entries = A.entries_sign()
+    tree, sites = c04.find_core(F, entries)
+    if len(sites) != 1:
+        return (False, "signing core not found")
+    f = F.fns[sites[0][0]]
+    for b, t in f.calls():
+        tps = F.call_targets(f, t)
+        if tps and t["args"] and f.locals[t["dest"]["local"]]["ty"].get("path") == flow.RESULT:
+            sfn = F.fns[tps[0]]
+            if sfn.j.get("name") == "sign" or "HssSignature" in sfn.path:
+                lms_sign_blocks = [bb for bb, tt in sfn.calls() if not sfn.blocks[bb]["cleanup"] and tt["args"] and
+                                   sfn.locals[tt["dest"]["local"]]["ty"].get("path") == flow.RESULT and F.call_targets(sfn, tt)]
+
+                def dep2(d):
+                    cal = gf.dep_callees(d)
+                    return any(c.endswith("get_mut") or c.endswith("::get") or c.endswith("::len") for c in cal) and any(c.endswith("is_some") or c.endswith("is_none") for c in cal) or \
+                        (any(c.endswith("::len") for c in cal) and bool(d["binops"]))
+                g = gf.find_guards(sfn, dep2, lms_sign_blocks)
+                if g and lms_sign_blocks:
+                    return (True, "already-signed test guards the bottom-level signing in %s" % sfn.path)
+    return (False, "no already-signed guard found")
+
+
+def _expansion_fn(F, A):
+    entries = A.entries_sign()
+    tree, sites = c04.find_core(F, entries)
+    f = F.fns[sites[0][0]]
+    for b, t in f.calls():
+        dty = f.locals[t["dest"]["local"]]["ty"]
+        if dty.get("path") == flow.RESULT and dty["args"][0].get("crate") == core.LOCAL_CRATE and t["args"] and len(t["args"]) == 2:
+            tps = F.call_targets(f, t)
+            if tps and F.fns[tps[0]].j.get("name") == "from":
+                return F.fns[tps[0]]
+    raise AnchorLost("key expansion routine")
+
+
+def expansion_shape(F, A):
+    """In the key expansion: one push to the private-key vector before the level loop, one per iteration."""
+    xf = _expansion_fn(F, A)
+    pre, inl = 0, 0
+    for b, t in xf.calls():
+        if xf.blocks[b]["cleanup"]:
+            continue
+        if core.strip_generics(core.callee_path(t) or "") == "tinyvec::arrayvec::ArrayVec::push":
+            o = flow.resolve_owner_path(xf, t["args"][0], want_mut=True)
+            if o is not None and o[1] == ("private_key",):
+                if xf.in_cycle(b):
+                    inl += 1
+                else:
+                    pre += 1
+    # the loop skips the root level
+    ex = expr.Expr(F, xf)
+    skip1 = any(x[0] == "call" and x[1].endswith("::skip") and x[2][1] == ("const", 1)
+                for b, t in xf.calls() if (core.callee_path(t) or "").endswith("::next") for x in expr.walk(ex.of_operand(t["args"][0])))
+    return (pre == 1 and inl == 1 and skip1, "root key pushed before the loop (%d), one key per iteration (%d), loop skips level 0 (%s)" % (pre, inl, skip1))
+
+
+def leaf_digit_masked(F, A):
+    xf = _expansion_fn(F, A)
+    ex = expr.Expr(F, xf)
+    for b, t in xf.calls():
+        tps = F.call_targets(xf, t)
+        if tps and F.fns[tps[0]].j.get("output", {}).get("k") == "array" and F.fns[tps[0]].j.get("output", {}).get("elem", {}).get("s") == "u32":
+            dfn = F.fns[tps[0]]
+            dx = expr.Expr(F, dfn)
+            for bb, i, s in dfn.iter_stmts():
+                if s["k"] == "assign" and s["place"]["proj"] and s["place"]["proj"][0]["k"] == "index" and not dfn.blocks[bb]["cleanup"]:
+                    ve = dx.of_rvalue(s["rv"], 0)
+                    ok = any(x[0] == "bin" and x[1] == "BitAnd" and any(y[0] == "bin" and y[1] == "Sub" and y[3] == ("const", 1) and expr.has_call(y[2], "pow") for y in expr.walk(x))
+                             for x in expr.walk(ve))
+                    return (ok, "every per-level leaf index is the counter masked with 2^h - 1")
+    return (False, "decomposition routine not found")
+
+
 def seed_type(F, A, leaves):
     kg = F.fn(A.fn("keygen"))
     for t in kg.j.get("inputs", []):
